@@ -168,7 +168,12 @@ func subnetSlotFns(c *Ctx) (acquire, release *types.Func) {
 func c18r2(c *Ctx) {
 	acq, rel := subnetSlotFns(c)
 	n := 0
-	for _, f := range c.P.MethodsOf("syncer", "Syncer") {
+	// every function of the package with its helpers expanded; the two slot operations stay calls
+	vs := c.P.Views("syncer", ir.ExpandOpt{Key: "subnet-slot", Stop: func(fn *types.Func) bool { return fn == acq || fn == rel }})
+	for _, f := range vs.Roots {
+		if f.Obj == acq || f.Obj == rel {
+			continue
+		}
 		g := f.Graph()
 		for _, call := range f.CallsTo(false, acq) {
 			n++
